@@ -513,23 +513,48 @@ fn config(case: &Case) -> Result<TurtleConfig, String> {
     catch(move || c.with_indentation(ind)).map_err(|e| format!("indentation: {e}"))
 }
 
+/// Generated inputs have at most a few dozen statements; any output beyond this bound is runaway.
+const OUTPUT_BOUND: usize = 512 * 1024;
+struct Bounded<'a> {
+    buf: &'a mut Vec<u8>,
+    limit: usize,
+}
+impl std::io::Write for Bounded<'_> {
+    fn write(&mut self, b: &[u8]) -> std::io::Result<usize> {
+        if self.buf.len() + b.len() > self.limit {
+            return Err(std::io::Error::other("runaway output: more than 512 KiB written for a small input"));
+        }
+        self.buf.extend_from_slice(b);
+        Ok(b.len())
+    }
+    fn flush(&mut self) -> std::io::Result<()> {
+        Ok(())
+    }
+}
+
 fn serialize(case: &Case, quads: &[MQ]) -> Result<String, Bad> {
     let cfg = config(case).map_err(Bad::Config)?;
-    let r: Result<Result<Vec<u8>, String>, String> = if case.turtle {
+    // The output is written through a bounded writer: a serializer that loops (e.g. a blank
+    // node wrongly treated as its own sub-tree) must end in an I/O error, not exhaust memory.
+    let mut buf: Vec<u8> = vec![];
+    let r: Result<Result<(), String>, String> = if case.turtle {
         let g: Vec<[SimpleTerm<'static>; 3]> = quads.iter().map(MQ::to_triple).collect();
+        let w = Bounded { buf: &mut buf, limit: OUTPUT_BOUND };
         catch(|| {
-            let mut s = TurtleSerializer::new_stringifier_with_config(cfg);
+            let mut s = TurtleSerializer::new_with_config(w, cfg);
             s.serialize_graph(&g).map_err(|e| e.to_string())?;
-            Ok(s.as_utf8().to_vec())
+            Ok(())
         })
     } else {
         let d: Vec<Spog<SimpleTerm<'static>>> = quads.iter().map(MQ::to_spog).collect();
+        let w = Bounded { buf: &mut buf, limit: OUTPUT_BOUND };
         catch(|| {
-            let mut s = TrigSerializer::new_stringifier_with_config(cfg);
+            let mut s = TrigSerializer::new_with_config(w, cfg);
             s.serialize_dataset(&d).map_err(|e| e.to_string())?;
-            Ok(s.as_utf8().to_vec())
+            Ok(())
         })
     };
+    let r = r.map(|x| x.map(|()| buf));
     match r {
         Err(p) => Err(Bad::SerPanic(p)),
         Ok(Err(e)) => Err(Bad::SerError(e)),
